@@ -24,13 +24,23 @@ MANIFEST = dict(
          'None and is_alive True exactly while nothing is cached, a code appears only as decode of a status waitpid '
          'reported for this pid, a join that saw the child end removes it from the children set, active_children '
          'returns only children without a code, a timed join whose sentinel is not ready never calls waitpid, start '
-         'twice or from a foreign process raises AssertionError and changes nothing. Correspondence: real code vs '
-         'model on scripted histories, all 65536 statuses, real children per exit path/signal (fork in quick; fork, '
-         'spawn, forkserver in thorough).',
+         'twice or from a foreign process raises AssertionError and changes nothing; Popen.wait over the waitpid/'
+         'sentinel oracles equals the generated wait whenever the waitpid loop returns and hangs iff it made a blocking '
+         'waitpid that is never answered; over every history a cached code of object i decodes a status its own oracle '
+         'holds for its own pid, and a child that is never reported has exitcode None / is_alive True after every '
+         'history. REFUTED (known finding C19:timed-join-blocks-after-child-closed-sentinel): "join(timeout) returns '
+         'within the timeout" -- a timed join blocks iff the sentinel is ready, timeout<>0 and waitpid never reports '
+         'the child (C19_timed_join_within_timeout_refuted, reproduced on a real child each run). Correspondence: '
+         'real code vs model on scripted histories, all 65536 statuses, real children per exit path/signal (fork '
+         'complete list, spawn and forkserver one per kind of ending in quick; all three complete in thorough), '
+         'histories over several real children with descriptor reuse / garbage-collected process objects / orphaned '
+         'sentinel judged by the world model (fork, spawn, forkserver).',
     note='Trusted: Coq kernel, translate/pykernel.py + translate/kernels/exitstatus.py (AST surgery with shape checks), '
          'Lib/PyVal.v, Lib/ExitStatusWait.v (glibc wait-status macros; validated against os.W* on all 65536 statuses '
          'each run), kernel behaviour (waitpid, signal delivery, pipe EOF) modelled as oracles; timing (join returns '
-         'within the timeout) is sampled on real children only. sys.exit()/sys.exit(None) report 1 (CPython: 0) and '
+         'within the timeout when the sentinel is not ready) is sampled on real children only; in real-child histories '
+         'the oracles are set from the driver-controlled state of each child (running / sentinel orphaned / ended); for '
+         'forkserver histories the fork world automaton is the reference (status chosen to decode to `seen`). sys.exit()/sys.exit(None) report 1 (CPython: 0) and '
          'sys.exit("msg") reports 0 (CPython: 1): modelled as the code behaves, outside the property statement (D18).',
     technique='Coq proof over translator-regenerated kernels + differential correspondence + exhaustive status sweep + real children',
     ref='5.19',
@@ -161,11 +171,120 @@ def exit_paths(rng, full):
 
 def real_cases(rng, tier):
     out = [dict(kind='real', method='fork', path=p) for p in exit_paths(rng, tier != 'quick')]
+    if tier == 'quick':
+        # every run validates the spawn / forkserver halves of `ending_of` on a few real children
+        # (one per kind of ending; the complete list runs in the thorough tier)
+        for m in ('spawn', 'forkserver'):
+            out += [dict(kind='real', method=m, path=p) for p in (
+                ['return'], ['raise'], ['sysexit', ['int', rng.randint(2, 255)]], ['sysexit', ['int', 256 + 7]],
+                ['sysexit', ['int', -1]], ['sysexit', ['int', 2 ** 31]], ['signal', rng.choice([9, 15, 6, 11])])]
     if tier != 'quick':
         for m in ('spawn', 'forkserver'):
             out += [dict(kind='real', method=m, path=p) for p in exit_paths(rng, False)]
             out += [dict(kind='real', method=m, path=['sysexit', ['int', n]])
                     for n in (2 ** 31, 2 ** 32 + 5, 2 ** 63 - 1)]
+    return out
+
+
+SEQ_PATHS = [['return'], ['raise'], ['sysexit', ['int', 0]], ['sysexit', ['int', 3]], ['sysexit', ['int', 255]],
+             ['signal', 15], ['signal', 9], ['signal', 6]]
+SHORT = 0.05            # the positive timeout of timed joins in real histories
+
+
+def seq_fd_reuse(method, paths=None):
+    """join A, start B (its sentinel gets A's descriptor number), drop and collect A, look at B;
+    the same once more with an unrelated file opened in between"""
+    paths = paths or [['return'], ['sysexit', ['int', 3]], ['signal', 15]]
+    ops = [['code', 0], ['alive', 0], ['start', 0], ['alive', 0], ['join', 0, SHORT], ['end', 0], ['join', 0, None],
+           ['code', 0], ['start', 1], ['drop', 0], ['alive', 1], ['code', 1], ['join', 1, SHORT], ['join', 1, 0],
+           ['active'], ['end', 1], ['join', 1, SHORT], ['code', 1], ['active'], ['start', 1]]
+    if len(paths) > 2:
+        ops += [['start', 2], ['drop', 1], ['openfile'], ['alive', 2], ['join', 2, 0], ['join', 2, SHORT], ['code', 2],
+                ['end', 2], ['alive', 2], ['join', 2, None], ['code', 2], ['active']]
+    return dict(kind='seq', method=method, paths=paths, ops=ops)
+
+
+def seq_orphaned_sentinel(method):
+    """the child closes its end of the sentinel pipe and goes on running: the sentinel is
+    ready, a timed join then waits in a blocking waitpid"""
+    return dict(kind='seq', method=method, paths=[['sysexit', ['int', 7]]],
+                ops=[['start', 0], ['join', 0, SHORT], ['closefds', 0], ['alive', 0], ['code', 0], ['join', 0, 0],
+                     ['join', 0, SHORT], ['code', 0], ['active'], ['end', 0], ['join', 0, SHORT], ['code', 0]])
+
+
+def gen_seq(rng, method, nops=16):
+    n = rng.choice([2, 3, 3, 4])
+    paths = [rng.choice(SEQ_PATHS) for _ in range(n)]
+    st = ['new'] * n              # new | run | ended
+    inset = [False] * n
+    dropped = [False] * n
+    ops, hot = [], []             # hot: reaped objects that should be dropped while a newer child runs
+    while len(ops) < nops:
+        live = [i for i in range(n) if not dropped[i]]
+        if not live:
+            break
+        running = [i for i in live if st[i] == 'run']
+        if hot and running and rng.random() < 0.7:
+            i = hot.pop(0)
+            dropped[i] = True
+            ops.append(['drop', i])
+            if rng.random() < 0.3:
+                ops.append(['openfile'])
+            continue
+        r = rng.random()
+        i = rng.choice(live)
+        if r < 0.22:
+            new = [j for j in live if st[j] == 'new']
+            if new and rng.random() < 0.9:
+                i = new[0]
+            ops.append(['start', i])
+            if st[i] == 'new':               # (a second start() raises before anything else)
+                st[i], inset[i] = 'run', True
+                for j in range(n):           # _cleanup() reaps the finished ones
+                    if st[j] == 'ended' and inset[j]:
+                        inset[j] = False
+                        if not dropped[j]:
+                            hot.append(j)
+        elif r < 0.36 and running:
+            i = rng.choice(running)
+            st[i] = 'ended'
+            ops.append(['end', i])
+        elif r < 0.60:
+            if st[i] == 'ended':
+                t = rng.choice([None, None, 0, SHORT])
+                if inset[i]:
+                    inset[i] = False
+                    hot.append(i)
+            else:
+                t = rng.choice([0, SHORT])
+            ops.append(['join', i, t])
+        elif r < 0.74:
+            ops.append(['alive', i])
+        elif r < 0.88:
+            ops.append(['code', i])
+        else:
+            ops.append(['active'])
+            for j in range(n):
+                if st[j] == 'ended' and inset[j]:
+                    inset[j] = False
+                    if not dropped[j]:
+                        hot.append(j)
+    for i in range(n):                   # nobody is left running: look at every end
+        if st[i] == 'run' and not dropped[i]:
+            ops += [['end', i], ['join', i, rng.choice([None, SHORT])], ['code', i]]
+    return dict(kind='seq', method=method, paths=paths, ops=ops)
+
+
+def seq_cases(rng, tier):
+    out = [seq_fd_reuse('fork'), seq_orphaned_sentinel('fork'),
+           seq_fd_reuse('spawn', [['raise'], ['signal', 9]]),
+           seq_fd_reuse('forkserver', [['sysexit', ['int', 5]], ['signal', 15]])]
+    nf, no = (5, 0) if tier == 'quick' else (40, 8)
+    out += [gen_seq(rng, 'fork') for _ in range(nf)]
+    for m in ('spawn', 'forkserver'):
+        out += [gen_seq(rng, m, 12) for _ in range(no)]
+    if tier != 'quick':
+        out += [seq_fd_reuse('spawn'), seq_fd_reuse('forkserver'), seq_orphaned_sentinel('spawn')]
     return out
 
 
@@ -216,6 +335,31 @@ def c_op(o):
     return '(OSetPid %s)' % cz(o[1])
 
 
+def c_sop(o):
+    k = o[0]
+    if k == 'end':
+        return '(SEnd %s)' % cnat(o[1])
+    if k == 'closefds':
+        return '(SOrphan %s)' % cnat(o[1])
+    if k in ('drop', 'openfile'):
+        return 'SNop'
+    if k == 'join':
+        return '(SOp (OJoin %s %s))' % (cnat(o[1]), copt(None if o[2] is None else (0 if o[2] == 0 else 5)))
+    return '(SOp %s)' % c_op(o)
+
+
+def c_seq_path(p):
+    k = p[0]
+    if k == 'return':
+        return 'PReturn'
+    if k == 'raise':
+        return 'PRaise'
+    if k == 'signal':
+        return '(PSignal %s false)' % cz(p[1])
+    assert k == 'sysexit' and p[1][0] == 'int', p
+    return '(PSysExit [VInt %s])' % cz(p[1][1])
+
+
 def c_ores(r):
     k = r[0]
     if k == 'none':
@@ -261,6 +405,13 @@ def to_coq(c, o):
         obs = clist(o['obs'], lambda x: '(%s, (%s, %s))' % (
             c_ores(x['res']), clist(x['children'], cnat), clist(x['rcs'], copt)))
         return '(CWorld %s %s %s %s)' % (cz(c['cur0']), specs, clist(c['ops'], c_op), obs)
+    if k == 'seq' and 'crash' in o:
+        return '(CSeq %s [] [] [(OBad, ([], []))])' % c['method'].capitalize()
+    if k == 'seq':
+        obs = clist(o['obs'], lambda x: '(%s, (%s, %s))' % (
+            c_ores(x['res']), clist(x['children'], cnat), clist(x['rcs'], copt)))
+        return '(CSeq %s %s %s %s)' % (c['method'].capitalize(), clist(c['paths'], c_seq_path),
+                                       clist(c['ops'], c_sop), obs)
     if k == 'sweep':
         return '(CSweep %s %s %s %s)' % (cz(c['lo']), cnat(c['n']), c_rle(o['decoded']), c_rle(o['macros']))
     if k == 'real' and 'crash' in o:
@@ -297,7 +448,7 @@ def c_rle(xs):
     return clist(delta_rle(xs), lambda r: '(%s, %s)' % (cnat(r[0]), cz(r[1])))
 
 
-SIGNATURES = dict(world='C19:liveness-or-cache-differs', sweep='C19:status-decode-differs',
+SIGNATURES = dict(world='C19:liveness-or-cache-differs', seq='C19:real-history-differs', sweep='C19:status-decode-differs',
                   real='C19:exit-code-differs', fs='C19:forkserver-poll-differs',
                   human='C19:human-status-differs')
 
@@ -309,6 +460,17 @@ def describe(c, o, where):
         if where and i < len(c['ops']):
             return 'op #%d %s of %s: real code gave %s' % (where, c['ops'][i], json.dumps(c), json.dumps(o['obs'][i]))
         return 'history %s: real code gave %s' % (json.dumps(c), json.dumps(o['obs']))
+    if k == 'seq' and 'crash' in o:
+        return '%s children %s, history %s: the scenario failed with %s' % (c['method'], c['paths'], c['ops'], o['crash'])
+    if k == 'seq':
+        i = max(where - 1, 0)
+        if where and i < len(c['ops']):
+            return ('real %s children ending by %s, history %s: op #%d %s gave %s (children set %s, cached codes %s); '
+                    'results so far %s' % (c['method'], json.dumps(c['paths']), json.dumps(c['ops']), where,
+                                           json.dumps(c['ops'][i]), json.dumps(o['obs'][i]['res']),
+                                           o['obs'][i]['children'], o['obs'][i]['rcs'],
+                                           json.dumps([x['res'] for x in o['obs'][:i]])))
+        return 'real %s children, history %s: real code gave %s' % (c['method'], json.dumps(c), json.dumps(o['obs']))
     if k == 'sweep':
         if where:
             s = c['lo'] + where - 1
@@ -334,14 +496,19 @@ def nontrivial(c):
         return 'start' in kinds and len(kinds) >= 3
     if k == 'fs':
         return len(c['ops']) >= 2
+    if k == 'seq':
+        return len({o[0] for o in c['ops']}) >= 4
     return True
 
 
 def direct_monitors(res, c, o):
     """property clauses evaluated directly on the observation of a real child"""
-    if c['kind'] != 'real' or o.get('skipped'):
+    if c['kind'] not in ('real', 'seq') or o.get('skipped'):
         return
     rp = dict(case=c, impl=o)
+    if c['kind'] == 'seq':
+        seq_monitors(res, c, o, rp)
+        return
     if 'crash' in o:
         timed = 'ScenarioTimeout' in o['crash'] and 'join(0' in o['crash']
         res.alarms.append(dict(signature='C19:timed-join-wrong' if timed else 'C19:real-child-scenario-failed',
@@ -363,6 +530,39 @@ def direct_monitors(res, c, o):
                                    o['code_unstarted'], o['alive_unstarted'])))
 
 
+ORPHAN_SIG = 'C19:timed-join-blocks-after-child-closed-sentinel'
+
+
+def seq_monitors(res, c, o, rp):
+    """the clause 'join(timeout) returns within the timeout', on every timed join of a real history
+    (liveness / exit codes of the same history are judged by the world model: CSeq)"""
+    if 'crash' in o:
+        res.alarms.append(dict(signature='C19:real-child-scenario-failed', replay=rp,
+                               what='%s children, history %s: %s' % (c['method'], json.dumps(c['ops']), o['crash'])))
+        return
+    orphaned = set()
+    for n, (op, x, secs) in enumerate(zip(c['ops'], o['obs'], o['timing'])):
+        if op[0] == 'closefds':
+            orphaned.add(op[1])
+        if op[0] != 'join' or op[2] is None:
+            continue
+        late = x['res'] == ['hang'] or secs > op[2] + 1.5
+        if not late:
+            continue
+        if op[1] in orphaned:
+            res.alarms.append(dict(
+                signature=ORPHAN_SIG, replay=rp,
+                what='%s child: after the child closed its end of the sentinel pipe and went on running, join(%s) '
+                     '(op #%d) did not return (interrupted after %.2fs inside a blocking os.waitpid)' % (
+                         c['method'], op[2], n + 1, secs)))
+        else:
+            res.alarms.append(dict(signature='C19:timed-join-wrong', replay=rp,
+                                   what='%s children, history %s: join(%s) (op #%d) took %.2fs%s' % (
+                                       c['method'], json.dumps(c['ops']), op[2], n + 1, secs,
+                                       ' and had to be interrupted' if x['res'] == ['hang'] else '')))
+        return
+
+
 def evaluate(tag, cases, outs):
     terms = [to_coq(c, o) for c, o in zip(cases, outs)]
     if not terms:
@@ -372,8 +572,8 @@ def evaluate(tag, cases, outs):
     codes, _ = core.coq_eval(tag, HEADER % 'check_case', chunks)
     bad = [(order[i], code) for i, code in codes]
     # most readable witnesses first: a single wait status, a real child, then histories
-    prio = dict(sweep=0, real=1, human=2, fs=3, world=4)
-    bad.sort(key=lambda b: (prio[cases[b[0]]['kind']], len(json.dumps(cases[b[0]])) if cases[b[0]]['kind'] == 'world' else 0, b[0]))
+    prio = dict(sweep=0, real=1, human=2, fs=3, seq=4, world=5)
+    bad.sort(key=lambda b: (prio[cases[b[0]]['kind']], len(json.dumps(cases[b[0]])) if cases[b[0]]['kind'] in ('world', 'seq') else 0, b[0]))
     where = {}
     if bad:
         pick = bad[:24]
@@ -392,10 +592,12 @@ def correspond(res, tier, nworld, nfs):
     cases += sweep_cases()
     reals = real_cases(rng, tier)
     cases += reals
+    cases += seq_cases(rng, tier)
     outs = core.run_driver('proc_driver.py', cases, timeout=1500)
     bad, where = evaluate('C19', cases, outs)
     for c, o in zip(cases, outs):
-        direct_monitors(res, c, o)
+        if c['kind'] != 'seq':
+            direct_monitors(res, c, o)
     bad = [b for b in bad if 'crash' not in outs[b[0]]]      # those are reported by direct_monitors
     for i, code in bad[:24]:
         c, o = cases[i], outs[i]
@@ -410,6 +612,9 @@ def correspond(res, tier, nworld, nfs):
         else:
             res.broken.append(dict(kind='correspondence', name='ExitStatus model vs implementation (%s)' % c['kind'],
                                    detail=describe(c, o, where.get(i, 0))[:1500]))
+    for c, o in zip(cases, outs):          # after the model's verdicts on the same histories
+        if c['kind'] == 'seq':
+            direct_monitors(res, c, o)
     if len(bad) > 24:
         res.notes.append('%d further cases disagree with the model (not listed)' % (len(bad) - 24))
     hist = {}
@@ -424,6 +629,12 @@ def correspond(res, tier, nworld, nfs):
     for c in reals:
         key = '%s:%s' % (c['method'], c['path'][0])
         paths[key] = paths.get(key, 0) + 1
+    seqm, seqh = {}, {}
+    for c in cases:
+        if c['kind'] == 'seq':
+            seqm[c['method']] = seqm.get(c['method'], 0) + 1
+            for o in c['ops']:
+                seqh[o[0]] = seqh.get(o[0], 0) + 1
     distinct = len({json.dumps(c, sort_keys=True) for c in cases if nontrivial(c)})
     nstat = sum(c['n'] for c in cases if c['kind'] == 'sweep')
     codes_seen = sorted({o['code'] for c, o in zip(cases, outs) if c['kind'] == 'real' and o.get('code') is not None})
@@ -436,9 +647,12 @@ def correspond(res, tier, nworld, nfs):
                      'active_children/getpid change; waitpid answers EINTR/ECHILD/not-yet/foreign pid/own pid with exit, '
                      'signal(+core) and stopped statuses; sentinel readiness) -- non-trivial = contains a start and at '
                      'least 3 op kinds; forkserver poll sequences (non-trivial = 2+ polls); every wait status 0..65535 '
-                     'counted once; real children one per (method, exit path); distinct by canonical JSON',
+                     'counted once; real children one per (method, exit path); real histories over 1-4 children '
+                     '(start/join(None|0|0.05)/is_alive/exitcode/active_children, child ends, child closes its sentinel, '
+                     'joined object dropped + gc, unrelated file opened; non-trivial = 4+ op kinds); distinct by canonical JSON',
                 case_kinds=kinds, world_op_histogram=hist, real_children_by_method_and_path=paths,
                 statuses_swept=nstat, real_exit_codes_observed=len(codes_seen),
+                real_histories_by_method=seqm, real_history_op_histogram=seqh,
                 max_timed_join_s=max([o.get('timed_join_s', 0) for c, o in zip(cases, outs) if c['kind'] == 'real'] or [0]))
 
 
@@ -453,8 +667,10 @@ def run(res):
         'os.waitpid, the sentinel wait and os.getpid are oracles (any answer sequence); the kernel reports exit(n) as '
         '(n mod 256)<<8 and death by signal s as s (+128 with core) -- Lib/ExitStatusWait.v, compared with os.W* on all '
         '65536 statuses on every run',
-        'join(timeout) returning within the timeout is kernel behaviour: sampled on real children (bound 5 s for a 20 ms '
-        'timeout), not proved; proved instead: a timed join whose sentinel is not ready performs no waitpid call',
+        'join(timeout) returning within the timeout: with the sentinel not ready it is kernel behaviour (poll(2)), sampled '
+        'on real children (bound 5 s for a 20 ms timeout; 1.5 s slack in real histories) -- proved: no waitpid call is '
+        'made then; with the sentinel ready and the child still running the clause is false (known finding, proved '
+        'C19_timed_join_blocks / _refuted, observed on a real fork child on every run)',
         'process objects are not shared between threads (no interleaving inside poll/join/_cleanup is modelled)',
         'exit codes outside a C int under fork are excluded (os._exit raises OverflowError in the child, which then '
         'leaves Popen._launch with an exception: see docs/C19.md)',
